@@ -65,6 +65,13 @@ BODIES = {
     'partial-error-object': '{"error":"OnlyError"}',
     'partial-error-object-2': '{"errorMessage":"only the message"}',
     'json-object-other': '{"foo":1}',
+    # an error status whose body looks like a successful session (a proxy
+    # rewriting statuses, a service answering 403 with the old session):
+    # still an error reply, and not an error object
+    'json-object-session': '{"accessToken":"stray-access","clientToken":'
+                           '"stray-client","selectedProfile":{"id":'
+                           '"0123456789abcdef0123456789abcdef","name":'
+                           '"Stray"},"availableProfiles":[]}',
     'json-null': 'null',
     'json-number': '42',
     'json-list': '["error","errorMessage"]',
